@@ -148,3 +148,11 @@ META["C12"] = dict(
                 "from the requests the server saw, panics are caught as process deaths, goroutines and sockets are counted after Close."),
     level_note=("Trusted: the scripted server's rule vocabulary (it cannot produce deviations outside it); loopback; the 3 s settle time for the leak census."),
 )
+
+META["C11"] = dict(
+    design_ref="DESIGN.md section 4, C11",
+    technique="property-based testing (rapid) with grammar-aware mutation: valid RTSP conversations mutated at the field, message, byte and connection level and sent to a live server; liveness, service, cleanup and lifecycle oracles; process deaths attributed through the case journal",
+    level_text=("Exploration: generated hostile conversations on 1..6 connections against a live server; survival, service to a well-behaved client, "
+                "timely close of silent connections, balanced lifecycle callbacks, released UDP registrations and goroutines."),
+    level_note=("Trusted: the mutation vocabulary; loopback; settle times (7 s lifecycle, 4 s goroutines)."),
+)
